@@ -122,15 +122,16 @@ def faulty_client(W, req, cut, rst, ctrl_step):
     return a
 
 
-def h_fault(req, cut, rst, ctrl_step, nfaulty, bystander):
+def h_fault(req, cut, rst, ctrl_step, nfaulty, bystander, mode=0):
     with notrace():
         req_ = conc(req, len(REQ))
+        mode_ = conc(mode, 2)          # 1: the server was started the command-line way (close_on_none=True: a None header is the shutdown request)
         T.reset()
         n = stream_len(req_)
         cut_ = conc(cut, n + 1)
         rst_, ctrl_, nf_, by_ = conc(rst, 2), conc(ctrl_step, 4), 1 + conc(nfaulty, 2), conc(bystander, 2)
         ev("c11", REQ[req_], cut_ if cut_ < n else "full", rst_, ctrl_, nf_, by_)
-        W = wsim.World(server=True)
+        W = wsim.World(server=True, server_kwargs=({"close_on_none": True} if mode_ else {}))
         try:
             sig = _run(W, req_, cut_, rst_, ctrl_, nf_, by_)
         except Hang:
@@ -215,7 +216,7 @@ def _run(W, req, cut, rst, ctrl_step, nfaulty, bystander):
     return None
 
 
-_params = OrderedDict([("req", (0, len(REQ) - 1)), ("cut", (0, 1200)), ("rst", (0, 1)), ("ctrl_step", (0, 3)), ("nfaulty", (0, 1)), ("bystander", (0, 1))])
+_params = OrderedDict([("req", (0, len(REQ) - 1)), ("cut", (0, 1200)), ("rst", (0, 1)), ("ctrl_step", (0, 3)), ("nfaulty", (0, 1)), ("bystander", (0, 1)), ("mode", (0, 1))])
 
 _FUNCS = ["pyworkers.remote_server:RemoteServer.run", "pyworkers.remote:RemoteWorker.__setstate__", "pyworkers.remote:RemoteWorker._ctrl_fn_remote",
           "pyworkers.remote:recv_msg", "pyworkers.remote:send_msg", "pyworkers.remote_context:RemoteContext.__setstate__",
@@ -226,17 +227,23 @@ H_FAULT = Harness(
     "fault", "vf.props.c11:h_fault", _params,
     tiers={
         "quick": {"ranges": {"cut": (0, 1200)}, "fixed": {"nfaulty": 0, "bystander": 1},
-                  "extra_pre": ["(req <= 1 and (cut <= 60 or cut % 16 == 0)) or (req >= 2 and (cut <= 24 or cut % 64 == 0))"],
+                  "extra_pre": ["(req <= 1 and (cut <= 60 or cut % 16 == 0)) or (req >= 2 and (cut <= 24 or cut % 64 == 0))",
+                                # command-line mode: cuts inside the request header only
+                                "mode == 0 or (cut <= 12 and ctrl_step == 0)"],
                   "partition": ["req", "rst", "ctrl_step"], "filter": (lambda f: f["req"] in (0, 1, 4) or f["ctrl_step"] == 0),
                   "timeout": 300, "twin_fixed": {"req": 0, "rst": 0, "ctrl_step": 0}},
-        "thorough": {"partition": ["req", "rst", "nfaulty", "bystander"], "timeout": 2400, "twin_fixed": {"req": 0, "rst": 0, "nfaulty": 0, "bystander": 1}},
+        "thorough": {"partition": ["req", "rst", "nfaulty", "bystander"], "timeout": 2400, "extra_pre": ["mode == 0 or cut <= 40"], "twin_fixed": {"req": 0, "rst": 0, "nfaulty": 0, "bystander": 1}},
     },
     functions=_FUNCS,
 )
 
+_MODE_NOTE = ("mode 1: the server runs with close_on_none=True, as 'python -m pyworkers.remote_server' and run_server() start it "
+              "(a complete None header is then the shutdown request; a cut connection is not)")
+
 SPEC = PropSpec(
     "C11", [H_FAULT],
     assumptions=[
+        _MODE_NOTE,
         "simulation model of C01 with the real RemoteServer as an actor; faulty clients write a prefix of the byte stream produced by the real client-side "
         "code (send_msg of the header and of the worker/context object) and then close (FIN) or reset (RST) the connection, or complete the stream and abandon "
         "the control handshake at one of 4 steps",
